@@ -79,7 +79,23 @@ def surface_fn(name: str, fr: List[List[float]]):
         return (lambda p: o + p[0] * e1 + p[1] * e2 + (p[0] ** 2 + p[1] ** 2) / 4 * e3), (lambda q: local(q)[2] - (local(q)[0] ** 2 + local(q)[1] ** 2) / 4)
     if name == "cylinder":
         return (lambda p: o + 2 * math.cos(p[0]) * e1 + 2 * math.sin(p[0]) * e2 + p[1] * e3), (lambda q: local(q)[0] ** 2 + local(q)[1] ** 2 - 4)
+    if name == "bilinear":
+        # the bilinear patch through o, o+e1, o+e2, o+e1+e2+e3/2, written the way a user would (corner weights)
+        p00, p10, p01, p11 = o, o + e1, o + e2, o + e1 + e2 + 0.5 * e3
+        return (
+            lambda p: (1 - p[0]) * (1 - p[1]) * p00 + p[0] * (1 - p[1]) * p10 + (1 - p[0]) * p[1] * p01 + p[0] * p[1] * p11
+        ), (lambda q: local(q)[2] - local(q)[0] * local(q)[1] / 2)
     return (lambda p: o + p[0] * e1 + p[1] * (e2 + 0.5 * e3)), (lambda q: local(q)[2] - 0.5 * local(q)[1])
+
+
+def surface_exact(name: str, fr: List[List[float]]):
+    """the same surfaces with exact rational coefficients (the floats of the frame taken exactly), for the model"""
+    o, e1, e2, e3 = ([Fr(c) for c in x] for x in fr)
+    if name == "sheared":
+        return "plane", [o, e1, add(e2, mul(Fr(1, 2), e3))]
+    if name == "bilinear":
+        return "bilinear", [o, add(o, e1), add(o, e2), add(add(add(o, e1), e2), mul(Fr(1, 2), e3))]
+    return None, []
 
 
 def helix_curve(fr):
@@ -97,7 +113,7 @@ class C17(core.Check):
     workers = 8
     rule = (
         "clamp cases: LineClamp / PlaneClamp / RadialClamp / CurveClamp (line, circle, linear- and spline-interpolated "
-        "curves) / ParametricSurfaceClamp (paraboloid, cylinder, sheared plane) / FreeClamp created at a position on "
+        "curves) / ParametricSurfaceClamp (paraboloid, cylinder, sheared plane, bilinear patch) / FreeClamp created at a position on "
         "or off the manifold, with end points, normals, axes and origins in a rational frame in general position "
         "(non-unit, non-zero), optional bounds, then 2-5 parameter updates within bounds; link cases: Translation / "
         "Symmetry / Rotation links with 1-4 leader moves of any size (rotation links: exact rotations about the axis "
@@ -120,9 +136,13 @@ class C17(core.Check):
     partial_note = (
         "theorems: positions of line/plane/radial clamps lie on the manifold for all parameters; the reported initial "
         "position is the closest point of the segment/plane (and the creation position when that is on it); "
-        "translation/symmetry/rotation links keep their relation for leader moves of any size; update is pure. "
-        "Curve and surface clamps (positions through user functions, parameters through scipy minimisers) and the "
-        "accuracy of the minimiser are checked by the oracle only."
+        "CurveClamp on a LineCurve (collinear, closest admissible point within the curve's bounds) and on a "
+        "LinearInterpolatedCurve (on one segment of the polyline, through the knots) and ParametricSurfaceClamp on a "
+        "plane / bilinear patch for all parameters; translation/symmetry/rotation links keep their relation for leader "
+        "moves of any size, the rotation relation determines the follower uniquely and commutes with rotations about "
+        "the axis; update is pure. Circle / spline / user-function curves, curved surfaces, the knot parameters of an "
+        "interpolated curve (square roots: observed, checked by the oracle against chord lengths) and the accuracy "
+        "of the scipy minimiser are checked by the oracle only."
     )
 
     # ------------------------------------------------------------------ generators
@@ -217,7 +237,7 @@ class C17(core.Check):
             cases.append(
                 {
                     "kind": "surface",
-                    "surface": rng.choice(["paraboloid", "cylinder", "sheared"]),
+                    "surface": rng.choice(["paraboloid", "cylinder", "sheared", "bilinear"]),
                     "frame": [fl(fr.o)] + [fl(e) for e in fr.e],
                     "uv0": [rng.uniform(-1.2, 1.2), rng.uniform(-1.2, 1.2)],
                     "off": 0.0 if rng.random() < 0.6 else rng.choice([0.2, -0.3]),
@@ -227,7 +247,7 @@ class C17(core.Check):
             )
         for _ in range(16 * mult):
             fr = Frame(rng)
-            name = rng.choice(["paraboloid", "cylinder", "sheared"])
+            name = rng.choice(["paraboloid", "cylinder", "sheared", "bilinear", "bilinear"])
             uv0 = [rng.uniform(-1.5, 1.5), rng.uniform(-1.5, 1.5)]
             cases.append(
                 {
@@ -420,8 +440,15 @@ class C17(core.Check):
             out["positions"] = []
             out["defs"] = []
             lo, hi = float(curve.bounds[0]), float(curve.bounds[1])
+            out["bounds"] = [lo, hi]
+            if case["curve"]["c"] == "linear":
+                # the parametrisation the library chose (chord length) and the points it interpolates
+                out["knots"] = [float(x) for x in curve.function.params]
+                out["knot_points"] = [fl(r) for r in curve.array.points]
+            out["used_params"] = []
             for t in case["params"]:
                 t = min(max(float(Fr(t)), lo), hi)
+                out["used_params"].append(t)
                 clamp.update_params([t])
                 out["positions"].append(fl(clamp.position))
             # dense scan of the curve: no sampled point may be much closer to the creation position than the reported one
@@ -439,6 +466,7 @@ class C17(core.Check):
             clamp = ParametricSurfaceClamp(pos, fn, [[-3, 3], [-3, 3]], guess)
             out["pos"] = fl(pos)
             out["initial"] = fl(clamp.position)
+            out["params0"] = [float(x) for x in clamp.params]
             out["resid0"] = float(resid(clamp.position))
             out["positions"] = []
             out["resids"] = []
@@ -602,6 +630,20 @@ class C17(core.Check):
                     else:
                         reqs.append(f"c17.slink {enc_v(FV(ld['n']))} {enc_v(FV(ld['o']))} {enc_v(FV(m))}")
             return reqs
+        if k == "curve" and case["curve"]["c"] == "line":
+            p1, p2 = enc_v(FV(case["curve"]["p1"])), enc_v(FV(case["curve"]["p2"]))
+            lo, hi = impl["bounds"]
+            reqs = [f"c17.curvelineinit {p1} {p2} {r(lo)} {r(hi)} {enc_v(FV(case['pos']))}"]
+            reqs += [f"c17.curveline {p1} {p2} {r(t)}" for t in impl["used_params"]]
+            return reqs
+        if k == "curve" and case["curve"]["c"] == "linear":
+            knots = " ".join(f"{r(kn)} {enc_v(pt)}" for kn, pt in zip(impl["knots"], impl["knot_points"]))
+            return [f"c17.poly {r(t)} {knots}" for t in [impl["param0"]] + impl["used_params"]]
+        if k == "surface" and surface_exact(case["surface"], case["frame"])[0]:
+            kind, pts = surface_exact(case["surface"], case["frame"])
+            op = "c17.surfplane" if kind == "plane" else "c17.surfbilinear"
+            head = " ".join(",".join(r(c) for c in p) for p in pts)
+            return [f"{op} {head} {r(float(u))} {r(float(v))}" for u, v in [impl["params0"]] + [list(uv) for uv in case["uvs"]]]
         if k == "rlink":
             a, o = FV(case["axis"]), enc_v(FV(case["o"]))
             l0, f0 = enc_v(FV(case["leader"])), enc_v(FV(case["follower"]))
@@ -650,6 +692,25 @@ class C17(core.Check):
                 return w
             for t, a, p in zip(case["ts"], model[1:], impl["positions"]):
                 w = chk(a, p, POS_TOL, f"LineClamp at t={t}")
+                if w:
+                    return w
+        elif k == "curve" and case["curve"]["c"] == "line" and model:
+            # created on the curve: the reported point is the creation point; off the curve: judged by distance
+            w = chk_initial(model[0], "initial position of CurveClamp(LineCurve)")
+            if w:
+                return w
+            for t, a, p in zip(impl["used_params"], model[1:], impl["positions"]):
+                w = chk(a, p, POS_TOL, f"CurveClamp(LineCurve) at t={t}")
+                if w:
+                    return w
+        elif k == "curve" and case["curve"]["c"] == "linear" and model:
+            for t, a, p in zip([impl["param0"]] + impl["used_params"], model, [impl["initial"]] + impl["positions"]):
+                w = chk(a, p, POS_TOL, f"CurveClamp(LinearInterpolatedCurve) at t={t}")
+                if w:
+                    return w
+        elif k == "surface" and model:
+            for uv, a, p in zip([impl["params0"]] + [list(x) for x in case["uvs"]], model, [impl["initial"]] + impl["positions"]):
+                w = chk(a, p, POS_TOL, f"ParametricSurfaceClamp({case['surface']}) at {uv}")
                 if w:
                     return w
         elif k == "plane":
@@ -797,6 +858,26 @@ class C17(core.Check):
                 if bad:
                     out.append({"site": f"CurveClamp:{ck}:position-off-curve", "what": f"local coordinates {(x, y, z)}", "observed": p})
                     break
+            if ck == "linear" and "knots" in impl:
+                # independent of the model: every reported position lies on a segment of the polyline through the
+                # given points, at the arc-length fraction its parameter says (chord-length parametrisation)
+                pts = [A(FV(q)) for q in case["curve"]["pts"]]
+                seg = [float(np.linalg.norm(b - a)) for a, b in zip(pts, pts[1:])]
+                total = sum(seg)
+                for t, p in zip([impl["param0"]] + impl["used_params"], allpos):
+                    s_target, acc, expect = t * total, 0.0, pts[-1]
+                    for a, b, ln in zip(pts, pts[1:], seg):
+                        if s_target <= acc + ln + 1e-12:
+                            expect = a + (b - a) * ((s_target - acc) / ln)
+                            break
+                        acc += ln
+                    if float(np.linalg.norm(A(p) - expect)) > 1e-8 * sc:
+                        out.append({"site": "CurveClamp:linear:position-off-polyline", "what": f"parameter {t}: expected the point at arc-length fraction {t} of the polyline, {expect.tolist()}", "observed": p})
+                        break
+            if ck in ("line", "linear"):
+                lo_b, hi_b = impl.get("bounds", [0.0, 1.0])
+                if not (lo_b - 1e-9 <= impl["param0"] <= hi_b + 1e-9):
+                    out.append({"site": f"CurveClamp:{ck}:initial-parameter-out-of-bounds", "what": f"bounds {[lo_b, hi_b]}", "observed": impl["param0"]})
             est = ":with-estimate" if case.get("est") is not None else ""
             if impl["reported_dist"] > impl["scan_min"] + 1e-4 * sc:
                 out.append({"site": f"CurveClamp:{ck}:initial-position{est}", "what": (f"initial_param={impl.get('estimate')}: " if est else "") + f"reported point at distance {impl['reported_dist']}, a scan of the curve finds {impl['scan_min']}", "observed": impl["initial"]})
